@@ -230,11 +230,12 @@ inductive VmTail (t : TxIn) (b : Base) (dom : List Addr) (eb : EEnv) (verdict : 
       VmTail t b dom eb verdict [.deploy t.c t.amt code]
   /-- a deployment whose body panicked (`env.Deploy` not reached) -/
   | deployPanicked : t.kind = .deploy → eb.dead = true → VmTail t b dom eb verdict []
-  /-- a termination the contract agreed to: `env.Terminate(ctx, keys, dest)` -/
-  | terminate (dest : Addr) (keep : List Bytes) : t.kind = .terminate → t.amt = 0 → dest ∈ dom → eb.stakeC t.c = none →
+  /-- a termination the contract agreed to: `env.Terminate(ctx, keys, dest)`; it carries no amount (validation from upgrade 11
+  on), or the chain is before upgrade 11, where the amount of a termination is not debited (`blockchain.go:1697`) -/
+  | terminate (dest : Addr) (keep : List Bytes) : t.kind = .terminate → (t.amt = 0 ∨ t.u11 = false) → dest ∈ dom → eb.stakeC t.c = none →
       VmTail t b dom eb verdict [.terminate t.c dest keep]
   /-- a termination the contract refused (or that panicked) -/
-  | terminateRefused : t.kind = .terminate → t.amt = 0 → (verdict = false ∨ eb.dead = true) → VmTail t b dom eb verdict []
+  | terminateRefused : t.kind = .terminate → (t.amt = 0 ∨ t.u11 = false) → (verdict = false ∨ eb.dead = true) → VmTail t b dom eb verdict []
 
 /-- **value_conserved** (embedded): over any duplicate-free set of addresses containing the sender, the contract and every
 address the calls name, balances + contract stakes change by exactly −(explicit burns) − fee − tips; nothing is created,
@@ -309,7 +310,9 @@ theorem value_conserved (dom : List Addr) (hn : dom.Nodup) (t : TxIn) (b : Base)
       rw [hl]
       rw [hb2]
       have hamt : (if (true && !t.pay && (decide (t.kind ≠ Kind.terminate) || t.u11)) = true then (t.amt : Int) else 0) = 0 := by
-        simp [hamt0]
+        rcases hamt0 with h0 | h0
+        · simp [h0]
+        · simp [hk, h0]
       rw [hamt]
       have := hinv.tot
       have hbb : eb.led.burnt = eb.burnt := rfl
@@ -506,6 +509,14 @@ example :
     let b : Base := { bal := fun a => if a = 1 then 5000 else 0, con := fun a => if a = 2 then some ⟨301, 1⟩ else none, store := fun _ => none }
     let r := applyE t b ([] ++ [.terminate 2 3 []]) true
     r.2.success = true ∧ r.2.burnt = 151 ∧ r.1.bal 3 = 150 ∧ r.1.con 2 = none := by decide
+
+/-- before upgrade 11 (`u11 := false`) a successful termination carrying an amount does not debit it: the sender pays
+the fee only (10 + 0 gas), half the stake goes to 3 -/
+example :
+    let t : TxIn := { kind := .terminate, wasm := false, snd := 1, c := 2, amt := 5000, tips := 0, maxFee := 1000, txFee := 10, fpg := 1, u11 := false }
+    let b : Base := { bal := fun a => if a = 1 then 9000 else 0, con := fun a => if a = 2 then some ⟨300, 1⟩ else none, store := fun _ => none }
+    let r := applyE t b ([] ++ [.terminate 2 3 []]) true
+    r.2.success = true ∧ r.1.bal 1 = 9000 - 10 ∧ r.1.bal 3 = 150 ∧ r.2.burnt = 150 := by decide
 
 /-- a nested wasm execution: the root (contract 2) pays 4 coins into a sub-call of contract 3, which commits -/
 example :
